@@ -287,7 +287,8 @@ theorem swap_spec {vr : VR} {p0 : Placement} {m0 : Machine} {tot : Chip → Nat 
       aget s.p x = some a ∧ SAInvW vr p0 m0 tot s' ∧
       (∀ v, aget s'.p v = if v ∈ vbs then some a else if v = x then some b else aget s.p v) ∧
       (∀ i, i < ra.length → dem (cap s'.m a) i = dem ra i + dem dx i - sumDem vr i vbs) ∧
-      (∀ i, i < rb.length → dem (cap s'.m b) i = dem rb i - dem dx i + sumDem vr i vbs) := by
+      (∀ i, i < rb.length → dem (cap s'.m b) i = dem rb i - dem dx i + sumDem vr i vbs) ∧
+      (∀ c, c ≠ a → c ≠ b → cap s'.m c = cap s.m c) := by
   rw [swap_eq] at h
   simp only [bind, Except.bind] at h
   split at h
@@ -367,7 +368,7 @@ theorem swap_spec {vr : VR} {p0 : Placement} {m0 : Machine} {tot : Chip → Nat 
                           intro c; rw [aget_aset, aget_aset]
                         have hload : ∀ c, c ≠ a → c ≠ b → ∀ i, load vr st2.1 c i = load vr s.p c i :=
                           fun c h1 h2 i => load_congr_chip vr _ _ c i (fun v => F2.other v c h1 h2)
-                        refine ⟨dx, ra, rb, hdx, hra, hrb, hxa, ?_, ?_, ?_, ?_⟩
+                        refine ⟨dx, ra, rb, hdx, hra, hrb, hxa, ?_, ?_, ?_, ?_, ?_⟩
                         · refine ⟨w2.trans (w1.trans I.w), h2'.trans (h1.trans I.h), d2.trans (d1.trans I.dead),
                             ?_, ?_, ?_, F2.pnd, fun v => (F2.pkeys v).trans (I.pkeys v), ?_⟩
                           · intro c hc
@@ -423,5 +424,229 @@ theorem swap_spec {vr : VR} {p0 : Placement} {m0 : Machine} {tot : Chip → Nat 
                         · intro i hi
                           show dem (cap m2 b) i = _
                           rw [hcap b, if_pos rfl, e5 i hi, dem_sub _ _ _ hi]
+                        · intro c hca hcb
+                          show cap m2 c = _
+                          rw [hcap c, if_neg (fun e => hcb e.symm), if_neg (fun e => hca e.symm)]
+
+/-! ### `_get_candidate_swap` and the return-fit test -/
+
+theorem candidate_spec (vr : VR) (fixed : List Vtx) (need : Res) :
+    ∀ (vs : List Vtx) (free : Res) (acc dvs : List Vtx),
+      candidate vr fixed need vs free acc = .ok (some dvs) →
+      ∃ moved, dvs = acc ++ moved ∧ moved.Sublist vs ∧ (∀ v ∈ moved, v ∉ fixed) ∧
+        ∀ i, i < free.length → 0 ≤ dem free i + sumDem vr i moved - dem need i := by
+  intro vs
+  induction vs with
+  | nil =>
+    intro free acc dvs h
+    unfold candidate at h
+    split at h
+    · rename_i ho
+      injection h with h; injection h with h; subst h
+      refine ⟨[], by simp, List.Sublist.refl _, by simp, fun i hi => ?_⟩
+      have := (over_false_iff _).1 (by simpa using ho) i (by rw [sub_length]; exact hi)
+      rw [dem_sub _ _ _ hi] at this
+      simp only [sumDem]; omega
+    · simp at h
+  | cons v rest ih =>
+    intro free acc dvs h
+    unfold candidate at h
+    split at h
+    · rename_i ho
+      injection h with h; injection h with h; subst h
+      refine ⟨[], by simp, List.nil_sublist _, by simp, fun i hi => ?_⟩
+      have := (over_false_iff _).1 (by simpa using ho) i (by rw [sub_length]; exact hi)
+      rw [dem_sub _ _ _ hi] at this
+      simp only [sumDem]; omega
+    · simp only at h
+      split at h
+      · obtain ⟨moved, e1, e2, e3, e4⟩ := ih _ _ _ h
+        exact ⟨moved, e1, e2.cons _, e3, e4⟩
+      · rename_i hvf
+        split at h
+        · simp at h
+        · rename_i d hd
+          obtain ⟨moved, e1, e2, e3, e4⟩ := ih _ _ _ h
+          refine ⟨v :: moved, by rw [e1]; simp, e2.cons_cons _, ?_, fun i hi => ?_⟩
+          · intro u hu
+            simp only [List.mem_cons] at hu
+            rcases hu with rfl | hu
+            · exact hvf
+            · exact e3 u hu
+          · have := e4 i (by rw [add_length]; exact hi)
+            rw [dem_add _ _ _ hi] at this
+            simp only [sumDem, hd, Option.getD_some]; omega
+
+theorem back_spec (vr : VR) : ∀ (dvs : List Vtx) (r0 back : Res),
+    dvs.foldlM (fun (r : Res) v =>
+      match aget vr v with
+      | none => (.error .keyError : M Res)
+      | some d => .ok (sub r d)) r0 = .ok back →
+    back.length = r0.length ∧ ∀ i, i < r0.length → dem back i = dem r0 i - sumDem vr i dvs := by
+  intro dvs
+  induction dvs with
+  | nil =>
+    intro r0 back h
+    simp only [List.foldlM_nil, pure, Except.pure] at h
+    injection h with h; subst h; simp [sumDem]
+  | cons v t ih =>
+    intro r0 back h
+    simp only [List.foldlM_cons, bind, Except.bind] at h
+    split at h
+    · simp at h
+    · rename_i r1 h1
+      split at h1
+      · simp at h1
+      · rename_i d hd
+        injection h1 with h1; subst h1
+        obtain ⟨e1, e2⟩ := ih _ _ h
+        rw [sub_length] at e1 e2
+        refine ⟨e1, fun i hi => ?_⟩
+        rw [e2 i hi, dem_sub _ _ _ hi]; simp only [sumDem, hd, Option.getD_some]; omega
+
+/-! ### one step -/
+
+theorem dem_nonneg_len {r : Res} {n : Nat} (hl : r.length = n) (h : ∀ i, i < n → 0 ≤ dem r i) (i : Nat) :
+    0 ≤ dem r i := by
+  by_cases hi : i < n
+  · exact h i hi
+  · rw [dem_ge_length r i (by omega)]; omega
+
+/-- **the annealing step preserves the state invariant**, for every proposal -/
+theorem saStep_inv {vr : VR} {fixed : List Vtx} {p0 : Placement} {m0 : Machine} {tot : Chip → Nat → Int}
+    {s s' : SA} {src : Vtx} {dst : Chip} {accept f : Bool}
+    (hn : (keys vr).Nodup) (I : SAInv vr fixed p0 m0 tot s)
+    (h : saStep vr fixed s src dst accept = .ok (s', f)) : SAInv vr fixed p0 m0 tot s' := by
+  unfold saStep at h
+  split at h
+  · simp at h
+  rename_i hsf
+  split at h
+  · simp at h
+  rename_i srcLoc hsrc
+  split at h
+  · simp at h
+  rename_i hds
+  split at h
+  · injection h with h; injection h with h1 h2; subst h1; exact I
+  rename_i hokd
+  split at h
+  rotate_left
+  · simp at h
+  · simp at h
+  · simp at h
+  · simp at h
+  rename_i need free vs srcFree hneed hfree hvs hsrcFree
+  simp only [bind, Except.bind] at h
+  split at h
+  · simp at h
+  rename_i cand hcand
+  split at h
+  · simp only [pure, Except.pure] at h
+    injection h with h; injection h with h1 h2; subst h1; exact I
+  rename_i dvs
+  split at h
+  · simp at h
+  rename_i back hback
+  split at h
+  · simp only [pure, Except.pure] at h
+    injection h with h; injection h with h1 h2; subst h1; exact I
+  rename_i hob
+  split at h
+  · simp at h
+  rename_i s1 hs1
+  -- facts about the proposal
+  have hab : srcLoc ≠ dst := fun e => hds e.symm
+  obtain ⟨moved, em, hsub, hmf, hfit⟩ := candidate_spec vr fixed need vs free [] dvs hcand
+  simp only [List.nil_append] at em; subst em
+  obtain ⟨hokd', efree⟩ := Machine.get_some hfree
+  obtain ⟨hoks, esrcFree⟩ := Machine.get_some hsrcFree
+  have hokd0 : m0.ok dst = true := by rw [← I.ok_eq]; exact hokd'
+  have hoks0 : m0.ok srcLoc = true := by rw [← I.ok_eq]; exact hoks
+  obtain ⟨vs', evs, ndvs, iffvs⟩ := I.l2v dst hokd0
+  rw [hvs] at evs; injection evs with evs; subst evs
+  have hdv : ∀ v ∈ dvs, aget s.p v = some dst := fun v hv => (iffvs v).1 (hsub.subset hv)
+  have hsrcnd : src ∉ dvs := by
+    intro hm; have := hdv src hm; rw [hsrc] at this; exact hab (Option.some.inj this)
+  obtain ⟨eb1, eb2⟩ := back_spec vr dvs _ _ hback
+  rw [add_length] at eb1 eb2
+  -- the swap
+  obtain ⟨dx, ra, rb, hdx, hra, hrb, _, W1, hp1, hA1, hB1, hO1⟩ := swap_spec hn hab I.toSAInvW hs1
+  rw [hneed] at hdx; injection hdx with hdx; subst hdx
+  rw [hsrcFree] at hra; injection hra with hra; subst hra
+  rw [hfree] at hrb; injection hrb with hrb; subst hrb
+  have hp1' : ∀ v, v ∉ dvs → v ≠ src → aget s1.p v = aget s.p v := by
+    intro v h1 h2; rw [hp1 v, if_neg h1, if_neg h2]
+  have I1 : SAInv vr fixed p0 m0 tot s1 := by
+    refine ⟨W1, ?_, ?_⟩
+    · intro c hc
+      by_cases ea : c = srcLoc
+      · subst ea
+        apply dem_nonneg_len ((W1.len c hc).trans (I.len c hc).symm)
+        intro i hi
+        rw [← esrcFree] at hi
+        rw [hA1 i hi]
+        have := dem_nonneg_of_over (by simpa using hob : over back = false) i
+        rw [eb2 i hi, dem_add _ _ _ hi] at this
+        exact this
+      · by_cases eb : c = dst
+        · subst eb
+          apply dem_nonneg_len ((W1.len c hc).trans (I.len c hc).symm)
+          intro i hi
+          rw [← efree] at hi
+          rw [hB1 i hi]
+          have := hfit i hi
+          omega
+        · rw [hO1 c ea eb]; exact I.nonneg c hc
+    · intro v hv
+      rw [hp1' v (fun h => hmf v h hv) (fun e => hsf (e ▸ hv))]
+      exact I.fixedUnmoved v hv
+  split at h
+  · simp only [pure, Except.pure] at h
+    injection h with h; injection h with h1 h2; subst h1; exact I1
+  · split at h
+    · simp at h
+    rename_i s2 hs2
+    simp only [pure, Except.pure] at h
+    injection h with h; injection h with h1 h2; subst h1
+    obtain ⟨_, _, _, _, _, _, _, W2, hp2, _, _, _⟩ := swap_spec hn (fun e => hab e.symm) W1 hs2
+    have hpeq : ∀ v, aget s2.p v = aget s.p v := by
+      intro v
+      rw [hp2 v]
+      by_cases h1 : v ∈ dvs
+      · rw [if_pos h1, hdv v h1]
+      · rw [if_neg h1]
+        by_cases h2 : v = src
+        · subst h2; rw [if_pos rfl, hsrc]
+        · rw [if_neg h2]; exact hp1' v h1 h2
+    refine ⟨W2, ?_, ?_⟩
+    · intro c hc
+      apply dem_nonneg_len ((W2.len c hc).trans (I.len c hc).symm)
+      intro i hi
+      rw [I.len c hc] at hi
+      rw [W2.freeEq c hc i hi, load_congr vr s2.p s.p c i (fun v _ => hpeq v), ← I.freeEq c hc i hi]
+      exact I.nonneg c hc i
+    · intro v hv; rw [hpeq v]; exact I.fixedUnmoved v hv
+
+/-- lifted to every proposal list -/
+theorem saRun_inv {vr : VR} {fixed : List Vtx} {p0 : Placement} {m0 : Machine} {tot : Chip → Nat → Int}
+    (hn : (keys vr).Nodup) :
+    ∀ (steps : List Step) (s : SA) (fl : List Bool) (s' : SA) (fl' : List Bool),
+      SAInv vr fixed p0 m0 tot s → saRun vr fixed steps s fl = .ok (s', fl') →
+      SAInv vr fixed p0 m0 tot s' := by
+  intro steps
+  induction steps with
+  | nil =>
+    intro s fl s' fl' I h
+    simp only [saRun] at h
+    injection h with h; injection h with h1 h2; subst h1; exact I
+  | cons st rest ih =>
+    intro s fl s' fl' I h
+    simp only [saRun, bind, Except.bind] at h
+    split at h
+    · simp at h
+    · rename_i r hr
+      obtain ⟨s1, f⟩ := r
+      exact ih _ _ _ _ (saStep_inv hn I hr) h
 
 end Rig.C02
